@@ -540,6 +540,10 @@ impl Vm {
         debug_assert!(self.modules.len() == 1);
 
         loop {
+            #[cfg(feature = "verif_hooks")]
+            if let Some(error) = verif::tick(self) {
+                return Err(error);
+            }
             if cfg!(feature = "debug_trace") {
                 println!("          {}", self.active_fiber().stack);
                 let offset = self.active_chunk.code_offset(self.ip);
@@ -2040,5 +2044,90 @@ mod string_store {
                 mask: INIT_CAPACITY - 1,
             }
         }
+    }
+}
+
+/// Verification hooks (feature `verif_hooks`): instruction fuel, an optional (chunk, pc, height)
+/// trace, and the invariant that the raw active-fiber pointer matches the rooted one.
+#[cfg(feature = "verif_hooks")]
+pub mod verif {
+    use std::cell::RefCell;
+    use std::mem;
+
+    use super::Vm;
+    use crate::error::{Error, ErrorKind};
+
+    pub const FUEL_MESSAGE: &str = "verif: instruction fuel exhausted";
+
+    struct State {
+        fuel: Option<u64>,
+        executed: u64,
+        trace_on: bool,
+        trace: Vec<(usize, usize, usize)>,
+        fiber_mismatch: u64,
+    }
+
+    thread_local! {
+        static STATE: RefCell<State> = RefCell::new(State {
+            fuel: None,
+            executed: 0,
+            trace_on: false,
+            trace: Vec::new(),
+            fiber_mismatch: 0,
+        });
+    }
+
+    pub fn set_fuel(fuel: Option<u64>) {
+        STATE.with(|s| s.borrow_mut().fuel = fuel);
+    }
+
+    /// Instructions executed since the last call.
+    pub fn take_executed() -> u64 {
+        STATE.with(|s| mem::replace(&mut s.borrow_mut().executed, 0))
+    }
+
+    pub fn set_trace(on: bool) {
+        STATE.with(|s| {
+            let mut s = s.borrow_mut();
+            s.trace_on = on;
+            s.trace.clear();
+        });
+    }
+
+    /// (address of the chunk's first code byte, pc, operand-stack height above the frame base)
+    pub fn take_trace() -> Vec<(usize, usize, usize)> {
+        STATE.with(|s| mem::take(&mut s.borrow_mut().trace))
+    }
+
+    pub fn take_fiber_mismatches() -> u64 {
+        STATE.with(|s| mem::replace(&mut s.borrow_mut().fiber_mismatch, 0))
+    }
+
+    pub(super) fn tick(vm: &mut Vm) -> Option<Error> {
+        STATE.with(|s| {
+            let mut s = s.borrow_mut();
+            s.executed += 1;
+            let rooted = vm.fiber.as_ref().map(|f| f.as_gc().as_ptr() as usize);
+            if rooted != Some(vm.unsafe_fiber as usize) {
+                s.fiber_mismatch += 1;
+            }
+            if s.trace_on && s.trace.len() < 4_000_000 {
+                let chunk = vm.active_chunk;
+                if !chunk.code.is_empty() {
+                    let base = chunk.code.as_ptr() as usize;
+                    let pc = vm.ip as usize - base;
+                    let fiber = vm.fiber.as_ref().unwrap().borrow();
+                    let height = fiber.stack.len() - fiber.frames.last().unwrap().slot_base;
+                    s.trace.push((base, pc, height));
+                }
+            }
+            if let Some(fuel) = s.fuel.as_mut() {
+                if *fuel == 0 {
+                    return Some(Error::with_message(ErrorKind::RuntimeError, FUEL_MESSAGE));
+                }
+                *fuel -= 1;
+            }
+            None
+        })
     }
 }
